@@ -92,6 +92,57 @@ def observable_hamiltonian(rng, parents, ids, dims):
     return util.Hamiltonian(terms, conv, cm)
 
 
+HAMOBS_KS = [1, 2, 3, "inf"]
+
+
+def fork_parents(rng, n):
+    """tree with n >= 4 nodes in which a NON-root node branches: a chain of 1..2 nodes from the root to the fork
+    node, 2..3 children below it, the remaining nodes hung below those children (so that their subtrees are larger
+    than one site) or, with a small probability, anywhere."""
+    chain = 1 if n < 6 else rng.choice([1, 1, 2])
+    par = [None] + list(range(chain))            # nodes 0..chain, node `chain` is the fork
+    fork = chain
+    deg = 2 if n - len(par) < 5 else rng.choice([2, 2, 3])
+    kids = []
+    for _ in range(deg):
+        kids.append(len(par))
+        par.append(fork)
+    j = 0
+    while len(par) < n:
+        if rng.random() < 0.15:
+            par.append(rng.randrange(len(par)))
+        else:
+            par.append(kids[j % deg] if rng.random() < 0.8 else rng.randrange(kids[0], len(par)))
+            j += 1
+    return par
+
+
+def gen_hamobs(rng, kind, quick, shape=None):
+    """one case of the 'hamobs' family (see C18.rule)"""
+    shape = shape or rng.choice(["fork", "fork", "random", "wide"])
+    nmax = 6 if kind not in ("exact", "tebd") else 7
+    if shape == "fork":
+        par = fork_parents(rng, rng.choice([5, 6, 6, nmax]))
+    elif shape == "wide":
+        nn = rng.choice([4, 5, 6])
+        par = wide_root_parents(rng, nn, rng.choice([2, 3]))
+    else:
+        par = util.random_parents(rng, rng.choice([3, 4, 5, 6]))
+    n = len(par)
+    nsteps = rng.choice([4, 5] if quick else [4, 5, 6, 7])
+    ask = sorted(rng.sample(range(nsteps + 1), rng.randrange(1, nsteps)))
+    return {"kind": "hamobs", "cls": kind, "shape": shape, "tree": par, "nsteps": nsteps,
+            "cont": rng.choice(["single", "list", "dict", "dict"]), "nother": rng.randrange(0, 3),
+            "hpos": rng.randrange(0, 4), "twin": rng.random() < 0.4,
+            "bond": rng.choice(["2", "2", "2", "12"]), "dt": rng.choice([0.05, 0.1]),
+            "seed": rng.randrange(10 ** 6), "deep": rng.random() < 0.5,
+            "gauge": rng.choice(["none", "node", "node"]), "centre": rng.randrange(n),
+            "order": rng.choice(GATE_ORDERS), "orient": rng.choice(GATE_ORIENTS),
+            "fields": rng.choice(["after", "before", "mixed", "no"]),
+            "second": {str(k): rng.choice([x for x in HAMOBS_KS]) for k in HAMOBS_KS},
+            "reject": rng.choice(["run0", "key", "none"]), "ask_at": ask}
+
+
 def ref_expm(m):
     """exp(m) of a small complex matrix in extended precision (numpy longdouble): scaling and squaring around a
     Taylor series.  Independent of scipy's Pade routine and of any eigendecomposition."""
@@ -191,7 +242,15 @@ class C18(Prop):
             "relative strength 1e-10..1) / generic generators (also `open` mode), the generator in units 1e-12..1e6 with the "
             "step scaled inversely, short and long total times (|H| T up to ~1e6), state norms 1e-6..1e6, dimension 1..9, "
             "C / Fortran / strided generator arrays, non-integer T/dt, run/reset/run, judged against an extended-precision "
-            "Taylor exponential at the total time with a tolerance relative to |O||psi_j|^2. "
+            "Taylor exponential at the total time with a tolerance relative to |O||psi_j|^2; "
+            "'hamobs' cases: every concrete class on trees with 3..7 nodes (a non-root node with 2..3 children whose subtrees "
+            "exceed the bond dimension, random trees, wide roots), the operators include the HAMILTONIAN OBJECT ITSELF (the very "
+            "TTNO / matrix the instance was constructed with; singly, in a list, in a dict, at any position, optionally next to an "
+            "equal separately built copy and 0..2 tensor products), every evaluation interval of {1, 2, 3, 'inf'} on a fresh instance, "
+            "then a call the library rejects (run with interval 0 / unknown key: record and state must be unchanged), reset and a second "
+            "run with another interval; an instance stepped by hand and asked at an irregular subset of the steps; all records judged "
+            "against the dense <psi|O|psi> of an independent instance that was constructed without these operators, stepped by hand "
+            "and never asked, the final states against its final state, and the records of the intervals against one another. "
             "non-trivial = at least one step performed; distinct by case content")
     clauses = [
         ("F", "num_steps: floor/ceil rule with the exact double 0.1, non-negative, unique window characterisation (C18_num_steps_*)"),
@@ -206,6 +265,10 @@ class C18(Prop):
               "equals the dense <psi|O|psi> of the state of an independent instance stepped j*k times by hand; the same when the "
               "operators are asked after every hand-made step, and asking does not disturb the evolution; the same for observables "
               "given in TTNO form on trees with a wide root (validated, not a theorem)"),
+        ("V", "every concrete class with the Hamiltonian object itself among the operators: for every evaluation interval of {1, 2, 3, 'inf'} "
+              "the record (first run, and second run after a rejected call and a reset) equals the dense values on the states of an "
+              "independent, never-asked instance after exactly 0, k, 2k, ... hand-made steps, the evolved state does not depend on the "
+              "interval or on when operators were asked, the records of different intervals agree on common steps (validated, not a theorem)"),
     ]
     trusted_base = ["float quotient final_time/time_step_size enters the model as its exact rational value; threshold is the exact value of the double 0.1",
                     "times are compared as the single float product (j*k)*dt computed the same way in the harness"]
@@ -289,6 +352,17 @@ class C18(Prop):
         # memory layouts of the generator.
         for rep in range(ctx.scale(150, 1500) * budget_scale):
             cases.append(self._gen_exactgen(rng))
+        # "hamobs" family: the operators to evaluate include the Hamiltonian object itself, on every concrete class,
+        # every evaluation interval of {1, 2, 3, 'inf'} on a fresh instance followed by reset and a second run, on
+        # trees in which a non-root node branches (bond dimension below the dimension of the subtrees), random trees
+        # and trees with a wide root.  The fixed-rank / rank-adaptive BUG keep environment blocks across calls, so they
+        # get more members.
+        quick = not ctx.thorough()
+        for rep in range(ctx.scale(2, 8) * budget_scale):
+            for kind in kinds:
+                cases.append(gen_hamobs(rng, kind, quick))
+            for kind in ["fbug", "bug"]:
+                cases.append(gen_hamobs(rng, kind, quick, shape="fork"))
         cases += c18x.generate(ctx, stream, budget_scale)      # [ext-C18X]
         return cases
 
@@ -344,6 +418,12 @@ class C18(Prop):
                 c["sites:" + x["cls"]] += 1
                 c["sites:gauge:" + x["gauge"]] += 1
                 c["sites:order:" + x["order"]] += 1
+            if x["kind"] == "hamobs":
+                c["hamobs:shape:" + x["shape"]] += 1
+                c["hamobs:cont:" + x["cont"]] += 1
+                c["hamobs:reject:" + x["reject"]] += 1
+                c["hamobs:nodes:" + str(len(x["tree"]))] += 1
+                continue
             c["k:" + str(x["k"])] += 1
         return dict(c)
 
@@ -557,6 +637,191 @@ class C18(Prop):
             ob["bykey_ok"] = all(np.array_equal(ev.operator_result(key), res2[r]) for r, key in enumerate(ops))
         return ob
 
+    def _hamobs_impl(self, case):
+        """'hamobs' family: the operators to evaluate include the HAMILTONIAN OBJECT ITSELF (the very TTNO / matrix
+        the evolution was constructed with; for TEBD, which has no such object, a TTNO of the generator), next to
+        tensor products and possibly an equal, separately built copy.  For every evaluation interval in {1, 2, 3,
+        'inf'} a fresh instance is run, a rejected call is attempted, the instance is reset and run again with another
+        interval; a further instance is stepped by hand and asked at irregular steps.  Reference for everything: an
+        independent instance that was constructed WITHOUT these operators, is stepped by hand only and is never asked
+        anything; its states are contracted to dense vectors and <psi|O|psi> is taken with dense matrices."""
+        import random
+        rng = random.Random(case["seed"])
+        par = case["tree"]
+        n = len(par)
+        dt = case["dt"]
+        nsteps = case["nsteps"]
+        T = nsteps * dt
+        cls = case["cls"]
+        bond = 2 if case["bond"] == "2" else {i: rng.choice([1, 2, 2]) for i in range(1, n)}
+        ttns = util.build_ttns(rng, par, phys=[2] * n, bond=bond)
+        ids = sorted(ttns.nodes)
+        dims = util.phys_dims(ttns)
+        ham = edge_hamiltonian(rng, par, ids, dims, case["order"], case["orient"], case["fields"])
+        H = util.dense_ham(ham, ids, dims)
+        if case["gauge"] == "node":
+            ttns.canonical_form(f"n{case['centre']}", mode=rng.choice([util.ptn.SplitMode.REDUCED, util.ptn.SplitMode.KEEP]))
+        nprs = np.random.RandomState(case["seed"])
+        others = []
+        for j in range(case["nother"]):
+            where = [f"n{i}" for i in rng.sample(range(n), rng.choice([1, 1, 2]))]
+            others.append((["zeta_op", "alpha_op"][j], {i: nprs.standard_normal((2, 2)) + 1j * nprs.standard_normal((2, 2)) for i in where}))
+        psi0 = util.dense_vec(ttns, ids)
+        bk = {"deep": case["deep"]} if cls in ("bug", "fbug") else None
+        if cls == "exact":
+            from pytreenet.time_evolution.exact_time_evolution import ExactTimeEvolution
+            hobj = H
+            twin = H.copy()
+            named = [(key, util.dense_tp(tp, ids, dims)) for key, tp in others]
+            ttno = None
+        else:
+            ttno = util.TTNO.from_hamiltonian(copy.deepcopy(ham), ttns)
+            # TEBD is constructed from a Trotter splitting: the observable is a TTNO of the same generator
+            hobj = ttno if cls != "tebd" else util.TTNO.from_hamiltonian(copy.deepcopy(ham), ttns)
+            twin = util.TTNO.from_hamiltonian(copy.deepcopy(ham), ttns)
+            named = [(key, TensorProduct(dict(tp))) for key, tp in others]
+        dense = {key: util.dense_tp(tp, ids, dims) for key, tp in others}
+        named.insert(min(case["hpos"], len(named)), ("energy", hobj))
+        dense["energy"] = H
+        if case["twin"]:
+            named.insert(rng.randrange(len(named) + 1), ("energy_twin", twin))
+            dense["energy_twin"] = H
+        ops = self._container(case["cont"], dict(named)) if case["cont"] != "single" else hobj
+        keys = [key for key, _ in named] if case["cont"] != "single" else ["energy"]
+        caller = psi0.copy() if cls == "exact" else ttns
+        fp0 = state_fingerprint(caller)[:2 if cls == "exact" else 3]
+
+        def make(operators):
+            if cls == "exact":
+                return ExactTimeEvolution(caller, H, dt, T, operators)
+            return util.make_evolution(cls, caller, ham, ttno, dt, T, operators, bug_kwargs=bk)
+
+        def vec(ev):
+            return np.array(ev.state) if cls == "exact" else util.dense_vec(ev.state, ids)
+
+        # independent reference: constructed with one unrelated operator, stepped by hand, never asked
+        ref = make(np.eye(len(psi0)) if cls == "exact" else TensorProduct({ids[0]: np.eye(2)}))
+        vs = [vec(ref)]
+        for _ in range(nsteps):
+            ref.run_one_time_step()
+            vs.append(vec(ref))
+        vals = [[complex(np.vdot(v, dense[key] @ v)) for key in keys] for v in vs]
+        nrm2 = max(1.0, float(np.vdot(psi0, psi0).real))
+        ob = {"n_rule": nsteps, "keys": keys, "vals": vals,
+              "scale": [max(1.0, float(np.linalg.norm(dense[key], 2))) * nrm2 for key in keys],
+              "vscale": math.sqrt(nrm2), "ref_start_dev": float(np.max(np.abs(vs[0] - psi0))), "runs": []}
+        for k in HAMOBS_KS:
+            ev = make(ops)
+            r = {"k": k, "k2": case["second"][str(k)], "n": int(ev.num_time_steps)}
+            ev.run(evaluation_time=k, pgbar=False)
+            res1 = np.array(ev.results)
+            r["rec1"] = [[complex(x) for x in row] for row in res1[:-1]]
+            r["times1"] = np.real(res1[-1]).tolist()
+            r["times1_api"] = np.real(ev.times()).tolist()
+            r["final1_dev"] = float(np.max(np.abs(vec(ev) - vs[-1])))
+            # a call the library rejects must leave the record and the state as they were
+            rej = None
+            try:
+                if case["reject"] == "run0":
+                    ev.run(evaluation_time=0, pgbar=False)
+                elif case["reject"] == "key":
+                    ev.operator_result("no such operator")
+            except Exception as e:  # noqa
+                rej = type(e).__name__
+            if rej is not None:
+                r["rejected"] = rej
+                r["rejected_keeps_record"] = bool(ev._results is not None and np.array_equal(ev._results, res1))
+                r["rejected_state_dev"] = float(np.max(np.abs(vec(ev) - vs[-1])))
+            if case["cont"] == "dict" and ev._results is not None:
+                r["bykey_ok"] = all(np.array_equal(ev.operator_result(key), ev.results[j]) for j, key in enumerate(keys))
+            ev.reset_to_initial_state()
+            r["reset_dev"] = float(np.max(np.abs(vec(ev) - psi0)))
+            ev.run(evaluation_time=r["k2"], pgbar=False)
+            res2 = np.array(ev.results)
+            r["rec2"] = [[complex(x) for x in row] for row in res2[:-1]]
+            r["times2"] = np.real(res2[-1]).tolist()
+            r["final2_dev"] = float(np.max(np.abs(vec(ev) - vs[-1])))
+            r["caller_unchanged"] = (state_fingerprint(caller)[:len(fp0)] == fp0)
+            r["state_is_caller"] = ev.state is caller
+            ob["runs"].append(r)
+        # stepped by hand, asked for all operators at an irregular subset of the steps
+        ev3 = make(ops)
+        asked = None
+        for s in range(nsteps + 1):
+            if s:
+                ev3.run_one_time_step()
+            if s in case["ask_at"]:
+                got = [complex(x) for x in ev3.evaluate_operators()]
+                v3 = vec(ev3)
+                want = [complex(np.vdot(v3, dense[key] @ v3)) for key in keys]
+                for j, key in enumerate(keys):
+                    if asked is None and abs(got[j] - want[j]) > 1e-8 * ob["scale"][j]:
+                        asked = [s, key, got[j], want[j]]
+        ob["asked"] = asked
+        ob["asked_final_dev"] = float(np.max(np.abs(vec(ev3) - vs[-1])))
+        return ob
+
+    def _hamobs_oracle(self, case, ob):
+        cls = case["cls"]
+        what = f"{cls} with the Hamiltonian object among the operators ({case['cont']})"
+        n = ob["n_rule"]
+        keys, vals, scale = ob["keys"], ob["vals"], ob["scale"]
+        vtol = 1e-8 * ob["vscale"]
+        if ob["ref_start_dev"] > vtol:
+            return f"{what}: a freshly constructed instance does not start in the caller's state"
+        records = {}
+        for r in ob["runs"]:
+            if r["n"] != n:
+                return f"{what}: number of steps {r['n']} != {n}"
+            if not r["caller_unchanged"]:
+                return f"{what}: the caller's state object was modified by run()"
+            if r["state_is_caller"]:
+                return f"{what}: evolves the caller's object in place"
+            for tag, k in (("1", r["k"]), ("2", r["k2"])):
+                hist = f"run(evaluation_time={r['k']!r})" + ("" if tag == "1" else f"; reset; run(evaluation_time={k!r})")
+                steps = [n] if k == "inf" else list(range(0, n + 1, k))
+                rec, times = r["rec" + tag], r["times" + tag]
+                if len(rec) != len(keys) or any(len(row) != len(steps) for row in rec) or len(times) != len(steps):
+                    return f"{what}: {hist}: record of shape {[len(rec) + 1, len(times)]}, expected {[len(keys) + 1, len(steps)]}"
+                if not np.allclose(times, [s * case["dt"] for s in steps], rtol=1e-12, atol=0.0):
+                    return f"{what}: {hist}: times {times}, expected {[s * case['dt'] for s in steps]}"
+                for j, key in enumerate(keys):
+                    for col, s in enumerate(steps):
+                        if not abs(rec[j][col] - vals[s][j]) <= 1e-8 * scale[j]:
+                            return (f"{what}: {hist}: '{key}' recorded in column {col} (t={times[col]:.6g}) is {rec[j][col]:.9g}, "
+                                    f"<psi|O|psi> of the state of an independent instance after {s} hand-made steps is {vals[s][j]:.9g}")
+                if not r["final" + tag + "_dev"] <= vtol:
+                    return (f"{what}: {hist}: the state after the run differs from the state of an independent instance after "
+                            f"{n} hand-made steps by {r['final' + tag + '_dev']:.3g} (the evolution depends on the evaluation interval / history)")
+                if tag == "1":
+                    records[str(k)] = (steps, rec)
+                    if r["times1_api"] != times:
+                        return f"{what}: times() {r['times1_api']} is not the times row {times}"
+                    if "rejected" in r:
+                        if not r["rejected_keeps_record"] or not r["rejected_state_dev"] <= vtol:
+                            return f"{what}: a rejected call ({case['reject']}: {r['rejected']}) changed the record / the state"
+                    if not r.get("bykey_ok", True):
+                        return f"{what}: dict keys do not address their rows"
+                    if not r["reset_dev"] <= vtol:
+                        return f"{what}: {hist}: reset does not restore the initial state ({r['reset_dev']:.3g})"
+        # the records of the intervals compared with one another: column j of interval k = column j*k of interval 1
+        if "1" in records:
+            s1, rec1 = records["1"]
+            for kk, (steps, rec) in records.items():
+                for j in range(len(keys)):
+                    for col, s in enumerate(steps):
+                        if not abs(rec[j][col] - rec1[j][s1.index(s)]) <= 2e-8 * scale[j]:
+                            return (f"{what}: '{keys[j]}' after {s} steps is {rec[j][col]:.9g} in the record of interval {kk} "
+                                    f"and {rec1[j][s1.index(s)]:.9g} in the record of interval 1")
+        if ob["asked"]:
+            s, key, g, w = ob["asked"]
+            return (f"{what}: stepped by hand and asked at the steps {case['ask_at']}: after {s} steps '{key}' is evaluated to {g:.9g}, "
+                    f"<psi|O|psi> of its state is {w:.9g}")
+        if not ob["asked_final_dev"] <= vtol:
+            return (f"{what}: stepped by hand and asked at the steps {case['ask_at']}: the final state differs from the one of an "
+                    f"instance that was never asked by {ob['asked_final_dev']:.3g}")
+        return None
+
     def _exactgen_impl(self, case):
         from pytreenet.time_evolution.exact_time_evolution import ExactTimeEvolution, ExactTimeEvolutionConfig
         ham, dt, T, psi, named = exactgen_input(case)
@@ -642,7 +907,8 @@ class C18(Prop):
             try:
                 out.append(self._grid_impl(c) if c["kind"] == "grid" else
                            c18x.impl(c) if c["kind"] == "xsm" else      # [ext-C18X]
-                           self._exactgen_impl(c) if c["kind"] == "exactgen" else self._class_impl(c))
+                           self._exactgen_impl(c) if c["kind"] == "exactgen" else
+                           self._hamobs_impl(c) if c["kind"] == "hamobs" else self._class_impl(c))
             except Exception as e:  # noqa
                 import traceback
                 out.append({"exception": f"{type(e).__name__}: {e}", "tb": traceback.format_exc()[-1500:]})
@@ -741,6 +1007,8 @@ class C18(Prop):
             return None
         if case["kind"] == "exactgen":
             return self._exactgen_oracle(case, ob)
+        if case["kind"] == "hamobs":
+            return self._hamobs_oracle(case, ob)
         # class cases
         if ob["n"] != ob["nsteps"]:
             return f"num steps {ob['n']} != {ob['nsteps']}"
